@@ -262,6 +262,39 @@ def runs_before(fl, node: ast.AST, exit_stmt: ast.stmt) -> bool:
     return False
 
 
+def signed_root(request_param: str) -> str:
+    """The SignedData structure verify() decodes from the request (access path, locals expanded)."""
+    return f"SECURITY_CODER.decode_etsi_ts_103097_data_signed({request_param}.message)['content'][1]"
+
+
+def is_header_info(e: ast.AST, root: str) -> bool:
+    """`e` is the headerInfo of the signed tbsData below `root`."""
+    return any(sem.same(e, f) for f in (f"{root}['tbsData'].get('headerInfo', {{}})", f"{root}['tbsData']['headerInfo']"))
+
+
+def header_field(e: ast.AST, root: str):
+    """`e` reads headerInfo[<key>] / headerInfo.get(<key>, ...) of the signed message -> key else None."""
+    if isinstance(e, ast.Subscript) and isinstance(e.slice, ast.Constant) and is_header_info(e.value, root):
+        return e.slice.value
+    if isinstance(e, ast.Call) and isinstance(e.func, ast.Attribute) and e.func.attr == "get" and e.args and \
+            isinstance(e.args[0], ast.Constant) and is_header_info(e.func.value, root):
+        return e.args[0].value
+    return None
+
+
+def branch_atoms(fl, node: ast.AST) -> set:
+    """Atoms of the tests of all enclosing `if`s (each expanded where it is tested, so later stores / container
+    mutations that make the flow forget a guard do not hide it)."""
+    out = set()
+    child = node if isinstance(node, ast.stmt) else fl.stmt_of.get(id(node))
+    cur = fl.parent.get(id(child)) if child is not None else None
+    while cur is not None and cur is not fl.fi.node:
+        if isinstance(cur, ast.If) and (child in cur.body or child in cur.orelse):
+            out.update(sem.atoms(fl.expand(cur.test, fl.state_at(cur)), child in cur.body))
+        child, cur = cur, fl.parent.get(id(cur))
+    return out
+
+
 def guard_atoms(fl, node: ast.AST, expanded: bool = True) -> set:
     """sem atoms in force where `node` is evaluated (includes short-circuit / conditional-expression guards)."""
     return sem.facts(fl, node, expanded)
